@@ -40,6 +40,13 @@ func NewWorld(r *simkit.Run) *World {
 	// Every HTTP client in go-libipni goes through http.DefaultTransport.
 	http.DefaultTransport = w.Net.Transport()
 	r.InstallHooks(w.Names)
+	w.Net.PathName = func(p string) string {
+		i := strings.LastIndex(p, "/")
+		if c, err := cid.Decode(p[i+1:]); err == nil {
+			return p[:i+1] + w.Names.Name(c.String())
+		}
+		return p
+	}
 	return w
 }
 
@@ -55,6 +62,7 @@ type PubOpts struct {
 	HandlerPath string
 	Topic       string
 	Proto       *cidlink.LinkPrototype
+	Ident       *Ident // overrides the Ed25519 identity derived from Name
 }
 
 // PubNode is a publisher: real ipnisync.Publisher behind simulated servers.
@@ -75,6 +83,9 @@ type PubNode struct {
 
 func (w *World) NewPublisher(o PubOpts) *PubNode {
 	id := Identity(o.Name)
+	if o.Ident != nil {
+		id = o.Ident
+	}
 	w.Names.Set(string(id.ID), o.Name)
 	st := simkit.NewStore(w.R, o.Name+".store")
 	p := &PubNode{W: w, Name: o.Name, Ident: id, Store: st, LS: st.LinkSystem(), Opts: o, proto: schema.Linkproto}
